@@ -32,7 +32,7 @@ class C14(Prop):
             "definition in float64. Non-trivial = window > 1 or factor > 1; distinct by full case.")
     assumptions = ["bottleneck move_mean/move_median and np.pad('symmetric') are modelled, not verified"]
     regimes_expected = ["running-odd", "running-even", "running-wide", "down1d", "down2d", "down2dflat", "detrend", "detrend-long",
-                        "deredden", "ts_down", "blk_down"]
+                        "deredden", "ts_down", "blk_down", "chain"]
     budget_s = (150, 900)
 
     def gen(self, rng, tier):
@@ -66,6 +66,17 @@ class C14(Prop):
                           "dt": "f4", "dseed": rng.randrange(1 << 30)})
             cases.append({"op": "ts_down", "n": n, "f": rng.randint(1, n), "method": rng.choice(("mean", "median")),
                           "dt": "f4", "dseed": rng.randrange(1 << 30)})
+        # two operations on the SAME series: the second must still equal its definition on the data supplied
+        # (an operation that rearranges or rescales its input in place is only visible to the next one)
+        for _ in range(60 * k):
+            n = rng.randint(6, 40)
+            first = {"op": rng.choice(("down1d", "running")), "n": n, "f": rng.randint(2, max(2, n // 2)),
+                     "w": rng.randint(2, n), "method": rng.choice(("mean", "median", "median"))}
+            second = {"op": rng.choice(("down1d", "running")), "n": n, "f": rng.randint(1, max(1, n // 2)),
+                      "w": rng.randint(1, n), "method": rng.choice(("mean", "median"))}
+            via = rng.choice(("fn", "ts"))
+            cases.append({"op": "chain", "via": via, "first": first, "second": second, "n": n,
+                          "dt": rng.choice(("f4", "f8", "u1")) if via == "fn" else "f4", "dseed": rng.randrange(1 << 30)})
         return cases
 
     # ------------------------------------------------------------------
@@ -75,6 +86,20 @@ class C14(Prop):
 
         op = case["op"]
         try:
+            if op == "chain":
+                x = data_for(case, case["n"])
+                if case["via"] == "ts":
+                    from .c12 import mk_ts
+                    x = x.astype(np.float32)
+                    ts = mk_ts(x)
+                    run = lambda o: (ts.downsample(o["f"], filter_method=o["method"]).data if o["op"] == "down1d" else  # noqa: E731
+                                     ts.data - ts.deredden(method=o["method"], window=o["w"] * 1e-3).data)
+                else:
+                    run = lambda o: (S.downsample_1d(x, o["f"], method=o["method"]) if o["op"] == "down1d" else  # noqa: E731
+                                     S.running_filter(x, o["w"], method=o["method"]))
+                run(case["first"])
+                out = np.asarray(run(case["second"]))
+                return {"out": [float(v) for v in out.ravel()], "shape": list(out.shape), "dtype": str(out.dtype)}
             if op == "running":
                 x = data_for(case, case["n"])
                 out = S.running_filter(x, case["w"], method=case["method"])
@@ -117,6 +142,11 @@ class C14(Prop):
     # ------------------------------------------------------------------
     def expected(self, case):
         op = case["op"]
+        if op == "chain":
+            sub = dict(case["second"], dt=case["dt"] if case["via"] == "fn" else "f4", dseed=case["dseed"])
+            if case["via"] == "ts" and sub["op"] == "down1d":
+                sub["op"] = "ts_down"
+            return self.expected(sub)
         red = np.mean if case.get("method", "mean") == "mean" else np.median
         if op in ("running", "deredden"):
             x = data_for(case, case["n"]).astype(np.float64)
@@ -152,7 +182,7 @@ class C14(Prop):
         got = np.array(obs["out"]).reshape(obs["shape"])
         if list(got.shape) != list(want.shape):
             return f"{op}: output shape {list(got.shape)}, the definition has {list(want.shape)} ({ {k: v for k, v in case.items() if k != 'dseed'} })"
-        tol = 1e-4 if case["dt"] == "f4" or op in ("detrend",) else 1e-9
+        tol = 1e-4 if case["dt"] == "f4" or op in ("detrend",) or case.get("via") == "ts" else 1e-9
         bad = np.argwhere(np.abs(got - want) > tol * (1 + np.abs(want)))
         if len(bad):
             i = tuple(bad[0])
@@ -219,6 +249,8 @@ class C14(Prop):
         return case["op"]
 
     def nontrivial(self, case, obs):
+        if case["op"] == "chain":
+            return True
         return case.get("w", 1) > 1 or case.get("f", 1) > 1 or case.get("f1", 1) * case.get("f2", 1) > 1 or case["op"] == "detrend"
 
 
